@@ -18,6 +18,8 @@ pub struct Block {
     pub pair: Option<(usize, usize, Arc<Vec<Val>>, Arc<Vec<Val>>)>,
     /// Some(f): the pair indexes the element fields of list/array field f (first element)
     pub within: Option<usize>,
+    /// Some((fk, values of fk)): a third field on top of `pair` (triples of top-level fields)
+    pub third: Option<(usize, Arc<Vec<Val>>)>,
 }
 
 pub struct Gen {
@@ -63,6 +65,7 @@ impl Gen {
                     dom: Arc::new(vec![Val::Z]),
                     pair: None,
                     within: None,
+                    third: None,
                 });
                 total += 1;
                 for (fi, f) in k.fields.iter().enumerate() {
@@ -77,6 +80,7 @@ impl Gen {
                             dom: d.clone(),
                             pair: None,
                     within: None,
+                    third: None,
                         });
                         total += d.len() as u64;
                     }
@@ -96,6 +100,7 @@ impl Gen {
                                     dom: d.clone(),
                                     pair: None,
                     within: None,
+                    third: None,
                                 });
                                 total += d.len() as u64;
                                 // the same sweep on the LAST element of a three-element list
@@ -107,6 +112,7 @@ impl Gen {
                                     dom: d.clone(),
                                     pair: None,
                     within: None,
+                    third: None,
                                 });
                                 total += d.len() as u64;
                             }
@@ -127,6 +133,7 @@ impl Gen {
                                         dom: d.clone(),
                                         pair: None,
                     within: None,
+                    third: None,
                                     });
                                     total += d.len() as u64;
                                 }
@@ -161,8 +168,41 @@ impl Gen {
                             dom: Arc::new(vec![]),
                             pair: Some((i, j, pv[i].clone(), pv[j].clone())),
                             within: None,
+                    third: None,
                         });
                         total += n;
+                    }
+                }
+                // triples of top-level fields over small value sets (boundaries, every enumerant, every flag bit):
+                // a condition on three fields at once, in kinds with at most 9 valued fields
+                {
+                    let tv: Vec<Arc<Vec<Val>>> = k.fields.iter().map(|f| {
+                        let mut v = spec::pair_values(f, Depth::Light);
+                        if v.len() > 12 && !matches!(f.ty, Ty::Enum { .. } | Ty::Flags { .. }) { v.truncate(12); }
+                        Arc::new(v)
+                    }).collect();
+                    let idx: Vec<usize> = (0..k.fields.len()).filter(|i| !tv[*i].is_empty()).collect();
+                    if idx.len() >= 3 && idx.len() <= 9 {
+                        for a in 0..idx.len() {
+                            for b2 in (a + 1)..idx.len() {
+                                for c in (b2 + 1)..idx.len() {
+                                    let (i, j, l) = (idx[a], idx[b2], idx[c]);
+                                    let n = (tv[i].len() * tv[j].len() * tv[l].len()) as u64;
+                                    if n > 40_000 { continue; }
+                                    blocks.push(Block {
+                                        kind: ki,
+                                        baseline: b,
+                                        target: None,
+                                        start: total,
+                                        dom: Arc::new(vec![]),
+                                        pair: Some((i, j, tv[i].clone(), tv[j].clone())),
+                                        within: None,
+                                        third: Some((l, tv[l].clone())),
+                                    });
+                                    total += n;
+                                }
+                            }
+                        }
                     }
                 }
                 // the same products between the fields of one list / array element
@@ -196,6 +236,7 @@ impl Gen {
                                 dom: Arc::new(vec![]),
                                 pair: Some((i, j, pv[i].clone(), pv[j].clone())),
                                 within: Some(fi),
+                                third: None,
                             });
                             total += n;
                         }
@@ -258,6 +299,17 @@ impl Gen {
                     items[0][*ej] = dj[c].clone();
                 }
                 format!("{} B{} {}[0].{}#{}x{}#{}", k.name, b.baseline, k.fields[lf].name, elem[*ei].name, a, elem[*ej].name, c)
+            },
+            None if b.pair.is_some() && b.third.is_some() => {
+                let (fi, fj, di, dj) = b.pair.as_ref().unwrap();
+                let (fk, dk) = b.third.as_ref().unwrap();
+                let t = off % dk.len();
+                let rest = off / dk.len();
+                let (a, c) = (rest / dj.len(), rest % dj.len());
+                vals[*fi] = di[a].clone();
+                vals[*fj] = dj[c].clone();
+                vals[*fk] = dk[t].clone();
+                format!("{} B{} {}#{}x{}#{}x{}#{}", k.name, b.baseline, k.fields[*fi].name, a, k.fields[*fj].name, c, k.fields[*fk].name, t)
             },
             None if b.pair.is_some() => {
                 let (fi, fj, di, dj) = b.pair.as_ref().unwrap();
